@@ -1,7 +1,7 @@
 /-! GENERATED from /repo/glass-easel-template-compiler/src/parse/{tag,mod}.rs by checklib/extractors.py — do not edit. -/
 namespace GE.Extracted
 /-- both invalid-attribute-name loops stop on `is_template_whitespace` (the test `skip_whitespace` also uses) -/
-def attrLoopBreakOnTemplateWs : Bool := false
+def attrLoopBreakOnTemplateWs : Bool := true
 /-- `is_template_whitespace` is ' ' | '\x09'..='\x0D' -/
 def templateWsIsAsciiSet : Bool := true
 end GE.Extracted
